@@ -1063,7 +1063,7 @@ class Exec:
                     txt = "after: " + ast.unparse(s)
                     for key in anchors:
                         # an anchor names the statement by its text or by a prefix of it (e.g. the assignment target)
-                        if txt == key or (key.endswith("=") and txt.startswith(key + " ")):
+                        if txt == key or (key.endswith("=") and txt.startswith(key + " ")) or (key.endswith("...") and txt.startswith(key[:-3])):
                             self.ctx.anchors_hit = getattr(self.ctx, "anchors_hit", set())
                             self.ctx.anchors_hit.add(key)
                             for c2, o2 in res:
